@@ -7,6 +7,7 @@
    to_bits / from_bits of each shape passes check_to_bits / check_from_bits, and the theorems
    C06_to_bits_text / C06_from_bits_text turn such a pass into "for ALL values of that shape". *)
 From PV Require Import Base.Prelude Struct.Shape Struct.Layout Struct.LayoutProofs.
+(* -- *)
 Open Scope Z_scope.
 
 (* ---- total width = sum of the leaf widths; the packed value fits in it ---- *)
